@@ -51,16 +51,38 @@ class Boom(Exception):
 # The unexpected exception is raised with a VARIETY of classes: classes that the machinery itself catches somewhere
 # (IndexError around `args.pop(0)`, KeyError around caches, ...) are where a slip would swallow a resolver's exception.
 # (StopIteration is left out: Python itself rewrites it to RuntimeError inside coroutines and asyncio futures refuse it.)
-UNEXPECTED_CLASSES = (Boom, IndexError, KeyError, AttributeError, TypeError, ValueError, RuntimeError, LookupError,
-                      ZeroDivisionError, AssertionError, OSError, NotImplementedError)
+class WithExtensions(Exception):
+    """not a GraphQL error, but carries an `extensions` attribute like ResolverError does"""
+    extensions = {"code": "X"}
 
+
+def _library_unexpected():
+    """library exception classes that are NOT ResolverError: a resolver raising one of them must surface like any other"""
+    from py_gql import exc
+    return (
+        lambda m: exc.CoercionError(m),
+        lambda m: exc.ValidationError(m),
+        lambda m: exc.GraphQLSyntaxError(m, 0, "{ x }"),
+        lambda m: exc.SchemaError(m),
+        lambda m: exc.InvalidValue(m),
+        lambda m: exc.ScalarSerializationError(m),
+        lambda m: exc.GraphQLError(m),
+    )      # ExecutionError is the subject of a named probe (finding E5): the entry point turns it into a response when synchronous
+
+
+UNEXPECTED_CLASSES = (Boom, IndexError, KeyError, AttributeError, TypeError, ValueError, RuntimeError, LookupError,
+                      ZeroDivisionError, AssertionError, OSError, NotImplementedError, WithExtensions,
+                      "lib0", "lib1", "lib2", "lib3", "lib4", "lib5", "lib6")
 
 CLASS_SALT = 0      # rotated by the checker so that every field position sees every class
 
 
 def make_unexpected(path):
     cls = UNEXPECTED_CLASSES[(sum(map(ord, str(path))) + CLASS_SALT) % len(UNEXPECTED_CLASSES)]
-    err = cls("harness-unexpected at %r" % (path,))
+    if isinstance(cls, str):
+        err = _library_unexpected()[int(cls[3:])]("harness-unexpected at %r" % (path,))
+    else:
+        err = cls("harness-unexpected at %r" % (path,))
     err._harness_unexpected = True
     return err
 
@@ -583,6 +605,8 @@ class World:
         self.ev("body", path)
         try:
             if fo["r"] == "rerr":
+                if sum(map(ord, str(path))) % 3 == 0:
+                    raise _resolver_error_cls()("resolver error at %r" % (path,), extensions={"code": len(path)})
                 raise _resolver_error_cls()("resolver error at %r" % (path,))
             if fo["r"] == "exc":
                 self.boom_raised += 1
